@@ -1784,6 +1784,12 @@ impl GrafeoDB {
         // the earlier record while its label-index and adjacency entries stay behind.
         let mut node_ids = std::collections::HashSet::with_capacity(snapshot.nodes.len());
         for node in &snapshot.nodes {
+            // u64::MAX is the reserved "invalid" id; recreating it would overflow the id counter.
+            if !node.id.is_valid() {
+                return Err(Error::Internal(
+                    "snapshot import failed: reserved node id".to_string(),
+                ));
+            }
             if !node_ids.insert(node.id) {
                 return Err(Error::Internal(format!(
                     "snapshot import failed: duplicate node id {}",
@@ -1793,6 +1799,11 @@ impl GrafeoDB {
         }
         let mut edge_ids = std::collections::HashSet::with_capacity(snapshot.edges.len());
         for edge in &snapshot.edges {
+            if !edge.id.is_valid() {
+                return Err(Error::Internal(
+                    "snapshot import failed: reserved edge id".to_string(),
+                ));
+            }
             if !edge_ids.insert(edge.id) {
                 return Err(Error::Internal(format!(
                     "snapshot import failed: duplicate edge id {}",
